@@ -2,7 +2,7 @@
    plus what the Go implementation did; [check] evaluates the model and
    compares projected observables. *)
 Require Import Avro.Model.Base Avro.Model.Prim Avro.Model.Schema Avro.Model.GoType
-               Avro.Model.Blocks Avro.Model.Time Avro.Model.Spec Avro.Model.Codec Avro.Model.SchemaGen Avro.Model.Layout.
+               Avro.Model.Blocks Avro.Model.Time Avro.Model.Spec Avro.Model.Codec Avro.Model.SchemaGen Avro.Model.Layout Avro.Model.Heap.
 Require Import Avro.Corr.Common.
 Export Avro.Model.Base Avro.Model.Schema Avro.Model.GoType Avro.Model.Spec Avro.Model.Codec Avro.Corr.Common.
 
@@ -160,9 +160,15 @@ Definition check (c : case) : bool :=
       | Some c =>
         (* out of evaluation fuel (only collections of zero-width items with a declared
            count far above the input length get there, by SafeP): no verdict on this case *)
-        match c_read (fuel_for bs) c (zero_of (top_type t)) bs with
-        | Fuel => true
-        | o => cres_eqb (cres_of o) impl
+        (match c_read (fuel_for bs) c (zero_of (top_type t)) bs with
+         | Fuel => true
+         | o => cres_eqb (cres_of o) impl
+         end) &&
+        (* the allocation clause on what the implementation returned (also where the model gave
+           no verdict): heap cells of the value against the bound of AllocP.read_cells *)
+        match impl with
+        | ROk v rem => heap_bound_ok c (zero_of (top_type t)) (len bs - rem) v
+        | _ => true
         end
       | None => false
       end
